@@ -452,3 +452,19 @@ func init() {
 		}
 	}
 }
+
+func init() {
+	debugCmds["ssa-target"] = func(c *Ctx) {
+		fn := c.Func("cmd/gxz", "targetName")
+		for _, b := range fn.Blocks {
+			fmt.Printf("%d: %s\n", b.Index, b.Comment)
+			for _, ins := range b.Instrs {
+				if v, ok := ins.(ssa.Value); ok {
+					fmt.Printf("   %s = %s   (%T)\n", v.Name(), ins, ins)
+				} else {
+					fmt.Printf("   %s   (%T)\n", ins, ins)
+				}
+			}
+		}
+	}
+}
